@@ -1406,16 +1406,16 @@ def sensors_temperatures():
                         os.path.join(base, trip_point + "_temp"), fallback=None
                     )
 
-                if high is not None:
-                    try:
-                        high = float(high) / 1000.0
-                    except ValueError:
-                        high = None
-                if critical is not None:
-                    try:
-                        critical = float(critical) / 1000.0
-                    except ValueError:
-                        critical = None
+            if high is not None:
+                try:
+                    high = float(high) / 1000.0
+                except ValueError:
+                    high = None
+            if critical is not None:
+                try:
+                    critical = float(critical) / 1000.0
+                except ValueError:
+                    critical = None
 
             ret[unit_name].append(('', current, high, critical))
 
